@@ -76,7 +76,12 @@ func runC16(c *fw.Case) {
 		k := chain.NewKey(fmt.Sprintf("c16-owner-%d-%d", c.Index, i))
 		accs = append(accs, chain.GenAccount{Account: authtypes.NewBaseAccount(k.Addr, nil, 0, 0)})
 		avp := &vesttypes.AccountVestingPools{Owner: k.Bech()}
-		for j := 0; j < 1+r.Intn(3); j++ {
+		nPools := 1 + r.Intn(3)
+		if r.Intn(8) == 0 {
+			nPools = 0 // an owner entry without pools, somewhere in the key order
+			c.Count("legacy_owner_entries_without_pools", 1)
+		}
+		for j := 0; j < nPools; j++ {
 			avp.VestingPools = append(avp.VestingPools, mkPool(fmt.Sprintf("pool%d", j), typeNames[r.Intn(2)], gen.BigAmount(r, 18)))
 		}
 		avps = append(avps, avp)
@@ -385,6 +390,7 @@ func runC16(c *fw.Case) {
 	modBal := app.BankKeeper.GetBalance(ctx, authtypes.NewModuleAddress(vesttypes.ModuleName), vd).Amount.BigInt()
 	if modBal.Cmp(postLocked) != 0 {
 		c.Violate("C16/module-balance-vs-pools", "after the upgrade the vesting module account holds %s but pools lock %s", modBal, postLocked)
+		c.Violate("C05/upgrade-module-balance-vs-pools", "after the v1.2.0 upgrade the vesting module account holds %s but pools lock %s", modBal, postLocked)
 	}
 	splitApplied := post[pk{v120.ValidatorsVestingPoolOwner, "Validator round pool"}] != nil && prePools[pk{v120.ValidatorsVestingPoolOwner, "Validator round pool"}] == nil
 	newNames := map[string]*big.Int{"VC round pool": big.NewInt(15000000_000000), "Early-bird round pool": big.NewInt(8000000_000000), "Public round pool": big.NewInt(9000000_000000), "Strategic reserve short term round pool": big.NewInt(40000000_000000)}
